@@ -207,6 +207,16 @@ func (m *SetMon[T]) checkValues(vs []T) {
 	used := make([]bool, m.n())
 	for _, v := range vs {
 		i := m.find(v)
+		if i < 0 && v != v {
+			// a NaN member of a hash-keyed set: == never finds it again, every NaN
+			// added is a member of its own; match it with an unused NaN of the model
+			for j, x := range m.Model {
+				if x != x && !used[j] {
+					i = j
+					break
+				}
+			}
+		}
 		if i < 0 {
 			c.Fail("values", "non-member", "%s.Values() = %s lists %v which is not a member; members %s", m.Name, short(vs), v, short(m.Model))
 		}
@@ -421,10 +431,16 @@ func runC04(c *core.Ctx) {
 		runSetHistory(c, IntDom(c.R.Range(1000, 3000)), i) // sizes that small tests never reach
 	case i%13 == 5:
 		runSetHistory(c, StructDom(c.R.Range(4, 14)), i)
-	case i%13 == 6 && i%3 == 2:
-		// float members on the TreeSet (NaN, the infinities and both zeros are
-		// members like any other under cmp.Compare; == is not reflexive on NaN)
-		c.Count("elemtype:float-treeset", 1)
+	case i%13 == 6:
+		// float members: on the TreeSet NaN, the infinities and both zeros are
+		// members like any other under cmp.Compare (== is not reflexive on NaN);
+		// in the hash-keyed sets every NaN added is a member of its own that only
+		// Clear removes
+		if i%3 == 2 {
+			c.Count("elemtype:float-treeset", 1)
+		} else {
+			c.Count("elemtype:float-hash-sets", 1)
+		}
 		runSetHistory(c, FKeyDom(c.R.Range(4, 14)), i)
 	default:
 		runSetHistory(c, IntDom(c.R.Range(2, 10)), i)
@@ -456,6 +472,7 @@ func init() {
 			f.atLeast("obs:bulk-constructor-load", 1000)
 			f.atLeast("obs:bulk-add-into-empty", 1000)
 			f.atLeast("elemtype:float-treeset", 200)
+			f.atLeast("elemtype:float-hash-sets", 400)
 			return f.missing
 		},
 		Files: setFiles,
